@@ -12,6 +12,7 @@ import inspect
 import python_minifier
 from python_minifier.transforms.remove_annotations_options import RemoveAnnotationsOptions
 from vf.clienv import Env, Exit, namespace, BOOL_DESTS
+from harness.C14 import do_minify_rule   # noqa: F401  (C13e: the bytes written are encode(api result) or the untouched original)
 from vf.stubs import mod, patched
 
 META = {
@@ -241,6 +242,8 @@ def obligations(tier, seed):
     t = 240 if tier == 'quick' else 1800
     na, nb = (3, 1) if tier == 'quick' else (4, 2)
     return [
+        dict(name='C13e.bytes_out', fn='do_minify_rule', shards=[['len(S) <= 3', 'len(m) <= 2']], timeout=t,
+             bounds='source |S| <= 3 bytes, API result |m| <= 2 code points (shared with C14)'),
         dict(name='C13b.forwarding', fn='forwarding', shards=[[]], timeout=t, bounds='all 2^19 namespace valuations',
              public_replay='public_forwarding'),
         dict(name='C13b.forwarding.twin', fn='forwarding_twin', shards=[[]], timeout=t, expect='refuted', bounds='reachability twin'),
